@@ -54,6 +54,10 @@ ERR_KINDS = {
 
 
 def err_kind(exc) -> str:
+    # an exception a harness op raises to say "the implementation did something the property forbids although it
+    # ended in a refusal" (wrote output before refusing, malformed CLI output, ...): never agrees with the model
+    if getattr(exc, "harness_violation", False) or type(exc).__name__.startswith("Cli"):
+        return "Violation"
     for klass in type(exc).__mro__:
         if klass.__name__ in ERR_KINDS:
             return ERR_KINDS[klass.__name__]
@@ -314,10 +318,19 @@ def case_key(c):
     return hashlib.sha1((c["op"] + "|" + "|".join(enc(a) for a in c["args"])).encode()).hexdigest()
 
 
+# The properties say "rejected with an error" / "refused" and never name an exception class, so WHICH exception refuses
+# an input is not part of any property: a refusal agrees with a refusal.  VERIF_STRICT_ERRORS=1 restores the
+# per-case `strict` comparison of error kinds as a diagnostic (kind differences are always counted in the evidence).
+STRICT_ERRORS = os.environ.get("VERIF_STRICT_ERRORS") == "1"
+
+
 def results_agree(ir, mr, strict):
     """ir: impl result tuple, mr: model result tuple"""
     if mr[0] == "fail":
         return False
+    if ir[0] == "err" and ir[1] == "Violation":
+        return False
+    strict = strict and STRICT_ERRORS
     if ir[0] == "ok" and mr[0] == "ok":
         return norm(ir[1]) == norm(mr[1])
     if ir[0] == "err" and mr[0] == "err":
@@ -566,7 +579,7 @@ def run_check(prop_id, tier="quick", seed=0, replay=None):
         if k["id"] not in matchers:
             raise RuntimeError("KNOWN_FINDINGS entry %s has no matcher in %s" % (k["id"], prop_id))
 
-    stats = {"evaluations": 0, "agree": 0, "classes": {}, "impl_err": {}, "model_err": {}}
+    stats = {"evaluations": 0, "agree": 0, "classes": {}, "impl_err": {}, "model_err": {}, "err_kind_differs": {}}
     seen = set()
     nontrivial = 0
     filler = set(getattr(prop, "FILLER", {"filler"}))
@@ -619,6 +632,9 @@ def run_check(prop_id, tier="quick", seed=0, replay=None):
                 and xcount.get(c["cls"], 0) < xper and len(xsample) < xmax:
             xcount[c["cls"]] = xcount.get(c["cls"], 0) + 1
             xsample.append((c, mr, list(model.oracle_log)))
+        if ir[0] == "err" and mr[0] == "err" and ir[1] != mr[1]:      # informational: both refuse, kinds differ
+            kk = "%s/%s" % (ir[1], mr[1])
+            stats["err_kind_differs"][kk] = stats["err_kind_differs"].get(kk, 0) + 1
         if results_agree(ir, mr, c.get("strict", False)):
             stats["agree"] += 1
         else:
@@ -778,6 +794,8 @@ def run_check(prop_id, tier="quick", seed=0, replay=None):
             "samples": samples,
             "classes": stats["classes"],
             "impl_error_kinds": stats["impl_err"], "model_error_kinds": stats["model_err"],
+            "refusals_whose_error_kind_differs_from_the_models": stats["err_kind_differs"],
+            "error_kinds_compared_strictly": STRICT_ERRORS,
             "agreements": stats["agree"], "disagreements": len(disagreements),
             "traces_validated_against_impl": stats["agree"],
             "known_findings_matched": known_hit,
